@@ -30,7 +30,7 @@ impl Monitor for C12 {
         if tier == Tier::Sanitizer {
             vec!["uplinks_checked"]
         } else {
-            vec!["uplinks_checked", "adrackreq_expected", "backoff_step_expected", "ack_expected", "accepted_downlink", "rejected_downlink", "adr_toggle", "at_lowest_rate_with_n_ge_64", "classc_downlink"]
+            vec!["uplinks_checked", "adrackreq_expected", "backoff_step_expected", "ack_expected", "accepted_downlink", "rejected_downlink", "adr_toggle", "at_lowest_rate_with_n_ge_64", "classc_downlink", "two_classc_downlinks"]
         }
     }
 
@@ -116,6 +116,7 @@ fn history(front: Front, reg: Reg, rng: &mut Prng, col: &mut Collector) {
         let mut accepted = false;
         let mut dl_confirmed = false;
         let mut classc = false;
+        let mut two_classc = false;
         if n == next_target || rng.chance(1, 150) || (suspended && rng.chance(1, 6)) {
             next_target = *rng.pick(&targets);
             let kind = rng.below(6);
@@ -138,6 +139,14 @@ fn history(front: Front, reg: Reg, rng: &mut Prng, col: &mut Collector) {
                         plan = "classC";
                         accepted = true;
                         classc = true;
+                        if rng.bool() {
+                            // a second accepted downlink before the next uplink: the ACK owed for
+                            // a confirmed one must survive a later unconfirmed one
+                            let f2 = net.downlink(&Down { fcnt: fcnt_down + 2, confirmed: !dl_confirmed, port: Some(9), payload: &[], ..Default::default() });
+                            script.between.push(f2);
+                            two_classc = true;
+                            col.event("two_classc_downlinks");
+                        }
                     }
                 }
                 4 => {
@@ -157,6 +166,9 @@ fn history(front: Front, reg: Reg, rng: &mut Prng, col: &mut Collector) {
                 }
             }
             if accepted {
+                fcnt_down += 1;
+            }
+            if two_classc {
                 fcnt_down += 1;
             }
         }
@@ -233,7 +245,8 @@ fn history(front: Front, reg: Reg, rng: &mut Prng, col: &mut Collector) {
         if accepted {
             col.event("accepted_downlink");
             suspended = false;
-            if dl_confirmed {
+            if dl_confirmed || two_classc {
+                // (with two Class C downlinks exactly one of them was confirmed)
                 ack_owed = true;
             }
             let d = dev.snapshot().data_rate; // unchanged by a downlink without MAC commands
